@@ -91,6 +91,7 @@ class Sim:
         self.auto_submit = True  # jobs reach "submitted" in the same loop
         self.on_submit = None    # callback(itask) -> False vetoes (a check)
         self.on_publish = None   # callback(): deltas are pending
+        self.submit_fail = set()  # identities whose next submission fails
 
     # ------------------------------------------------------------ start-up
     def cold_start(self):
@@ -128,7 +129,13 @@ class Sim:
     def _start_job_submission(self, itasks):
         for t in sorted(itasks, key=lambda t: t.identity):
             self.prepare(t)
-            if self.auto_submit:
+            if t.identity in self.submit_fail:
+                # job preparation / submission fails (bad script, no host):
+                # TaskJobManager._prep_submit_task_job_error
+                self.submit_fail.discard(t.identity)
+                self.msg(t, self.tem.EVENT_SUBMIT_FAILED, logging.CRITICAL,
+                         internal=True)
+            elif self.auto_submit:
                 self.submit(t)
         return True
 
@@ -137,6 +144,7 @@ class Sim:
         if t.state.status != 'preparing':
             t.submit_num += 1
             t.state_reset('preparing')
+            self.ds.delta_task_state(t)
         t.waiting_on_job_prep = False
         TaskJobManager._set_retry_timers(t)
         self.prepared.append((t.tdef.name, int(t.point), t.submit_num))
